@@ -118,7 +118,12 @@ def parse_kani(out):
     res = {"checks": checks}
     m = re.search(r"Verification Time: ([\d.]+)s", out)
     res["time"] = float(m.group(1)) if m else None
-    if "VERIFICATION:- SUCCESSFUL" in out:
+    crashed = "CBMC failed" in out or "CBMC appears to have run out of memory" in out or "CBMC timed out" in out
+    if crashed and not checks:
+        # the back end died (killed by the memory watchdog / the kernel): no verdict at all
+        res["verdict"] = "NONE"
+        res["backend_crashed"] = True
+    elif "VERIFICATION:- SUCCESSFUL" in out:
         res["verdict"] = "SUCCESSFUL"
     elif "VERIFICATION:- FAILED" in out:
         res["verdict"] = "FAILED"
@@ -127,35 +132,67 @@ def parse_kani(out):
     return res
 
 
-_TREE_HASH = None
+_HASH_CACHE = {}
 
 
-def tree_hash():
-    """Content hash of everything a harness run depends on: the repository's sources and manifests, the
-    harness sources, the tool versions. A cached result is reused only under the identical hash, i.e. when a
-    rebuild from the current working tree would run the verifier on exactly the same text."""
-    global _TREE_HASH
-    if _TREE_HASH is None:
+def _repo_hash():
+    """Content hash of the repository side of a run: sources, manifests, feature set, tool version."""
+    if "repo" not in _HASH_CACHE:
         hsh = hashlib.sha256()
         files = []
         for root, _d, fs in os.walk(os.path.join(REPO, "src")):
             files += [os.path.join(root, f) for f in fs]
         files += [os.path.join(REPO, f) for f in ("Cargo.toml", "Cargo.lock") if os.path.exists(os.path.join(REPO, f))]
-        files += [os.path.join(KDIR, f) for f in os.listdir(KDIR) if f.endswith(".rs")]
         for f in sorted(files):
-            hsh.update(os.path.relpath(f, "/").encode())
+            hsh.update(os.path.relpath(f, REPO).encode())
             hsh.update(open(f, "rb").read())
         hsh.update(FEATURES.encode())
         try:
             hsh.update(subprocess.run(["cargo", "kani", "--version"], capture_output=True, text=True).stdout.encode())
         except Exception:
             pass
-        _TREE_HASH = hsh.hexdigest()[:24]
-    return _TREE_HASH
+        _HASH_CACHE["repo"] = hsh.hexdigest()
+    return _HASH_CACHE["repo"]
+
+
+def _module_files(mod, seen=None):
+    """The harness module's own source plus the harness modules it imports (`use super::h_x`)."""
+    seen = seen if seen is not None else set()
+    if mod in seen:
+        return seen
+    seen.add(mod)
+    try:
+        src = open(os.path.join(KDIR, mod + ".rs")).read()
+    except OSError:
+        return seen
+    for dep in re.findall(r"super::(h_\w+)", src):
+        _module_files(dep, seen)
+    return seen
+
+
+def tree_hash(mod=None):
+    """Content hash of everything a harness run depends on: the repository's sources and manifests, the
+    framework (fw.rs, entry.rs), the harness module and the harness modules it imports, the tool versions.
+    A cached result is reused only under the identical hash, i.e. when a rebuild from the current working
+    tree would run the verifier on exactly the same text of that harness and of the code under contract.
+    Without `mod`: hash over all harness sources (identifies the tree in the evidence)."""
+    key = mod or "*"
+    if key not in _HASH_CACHE:
+        hsh = hashlib.sha256()
+        hsh.update(_repo_hash().encode())
+        if mod is None:
+            names = sorted(f for f in os.listdir(KDIR) if f.endswith(".rs"))
+        else:
+            names = ["entry.rs", "fw.rs"] + sorted(m + ".rs" for m in _module_files(mod))
+        for f in names:
+            hsh.update(f.encode())
+            hsh.update(open(os.path.join(KDIR, f), "rb").read())
+        _HASH_CACHE[key] = hsh.hexdigest()[:24]
+    return _HASH_CACHE[key]
 
 
 def cache_path(name, h):
-    return os.path.join(WORK, "cache", tree_hash(), ("dbg_" if h["dbg"] else "nodbg_") + name + ".json")
+    return os.path.join(WORK, "cache", tree_hash(h["module"]), ("dbg_" if h["dbg"] else "nodbg_") + name + ".json")
 
 
 def run_harness(name, h, worker, tier):
@@ -206,10 +243,53 @@ def run_harness(name, h, worker, tier):
     return name, res
 
 
+CBMC_MAX_GB = float(os.environ.get("VERIF_CBMC_MAX_GB", "12"))
+
+
+def memory_watchdog(stop):
+    """One solver process must not take the machine down (no swap here): a cbmc started from our work
+    directory whose resident set exceeds VERIF_CBMC_MAX_GB is killed; its harness is then undecided."""
+    while not stop.wait(2.0):
+        try:
+            for pid in os.listdir("/proc"):
+                if not pid.isdigit():
+                    continue
+                try:
+                    comm = open(f"/proc/{pid}/comm").read().strip()
+                    if comm != "cbmc":
+                        continue
+                    cmd = open(f"/proc/{pid}/cmdline").read()
+                    if WORK not in cmd:
+                        continue
+                    rss_kb = 0
+                    for line in open(f"/proc/{pid}/status"):
+                        if line.startswith("VmRSS:"):
+                            rss_kb = int(line.split()[1])
+                    if rss_kb > CBMC_MAX_GB * 1024 * 1024:
+                        log(f"  memory watchdog: cbmc {pid} at {rss_kb // 1024} MB > {CBMC_MAX_GB} GB, killed")
+                        os.kill(int(pid), 9)
+                except (OSError, ValueError):
+                    continue
+        except OSError:
+            pass
+
+
 def run_pool(names, cat, tier):
     results = {}
     if not names:
         return results
+    import threading as _th
+    _stop = _th.Event()
+    _wd = _th.Thread(target=memory_watchdog, args=(_stop,), daemon=True)
+    _wd.start()
+    try:
+        return _run_pool(names, cat, tier)
+    finally:
+        _stop.set()
+
+
+def _run_pool(names, cat, tier):
+    results = {}
     # one worker slot per concurrent process, each with its own cargo target dir
     free = {True: list(range(WORKERS)), False: list(range(WORKERS))}
     import threading
@@ -468,7 +548,7 @@ def decide(pid, tier, seed):
         expected = obligations_of(pid, n, e)
         solver_time[n] = r.get("time")
         if r["verdict"] in ("TIMEOUT", "ERROR", "NONE"):
-            why = "time-out" if r["verdict"] == "TIMEOUT" else ("harness no longer compiles against this tree (lost anchor)" if r.get("compile_error") else "verifier error")
+            why = "time-out" if r["verdict"] == "TIMEOUT" else ("harness no longer compiles against this tree (lost anchor)" if r.get("compile_error") else ("solver ran out of memory / was stopped by the memory watchdog" if r.get("backend_crashed") else "verifier error"))
             undecided.append(f"{n}: {why}")
             continue
         tagged, auto_fail, covers, unwind_fail, unsupported, n_auto = split_checks(r)
